@@ -9,6 +9,7 @@ import Rare.Proofs.C17Iter
 import Rare.Proofs.C17Heap
 import Rare.Proofs.C17HeapI
 import Rare.Proofs.C17DenE
+import Rare.Proofs.C17HeapIE
 import Rare.Proofs.C17Extra
 import Rare.Model.Expr.Std
 import Rare.Gen.C17
@@ -1493,6 +1494,20 @@ theorem pooled_template_interleaved (env : C17HeapI.HeapI → C17HeapI.HeapI) (h
       FrameI h h' [] := by
   obtain ⟨h', e, fr⟩ := evI_val henv root fuel t ht ref h l g hf
   exact ⟨h', e, den_val t _ ht, fr⟩
+
+/-- **Every template under every schedule.**  `pooled_template_interleaved` without its hypothesis on the template:
+    whatever the pool-free model does with `t` – a value or a panic of some sub-expression – the interleaved machine
+    does the same under every interference that obeys `Rely`. -/
+theorem pooled_template_interleaved_any (env : C17HeapI.HeapI → C17HeapI.HeapI) (henv : ∀ h, Rely h (env h))
+    (root : Ctx) (fuel : Nat) (t : C17Heap.Tm)
+    (ref : C17Heap.Ref) (h : C17HeapI.HeapI) (l : List Nat) (g : GoodI h l ref)
+    (hf : l.length + C17Heap.depth t < fuel) :
+    match (C17Heap.den t).run (ctxOf root h.objs l) with
+    | .ok v => ∃ h', C17HeapI.evI env root fuel t ref h = .ok (v, h') ∧ FrameI h h' []
+    | .error m => C17HeapI.evI env root fuel t ref h = .error m := by
+  have := evI_valE henv root fuel t ref h l g hf
+  rw [← den_valE] at this
+  exact this
 
 /-- **What the other goroutines actually do obeys `Rely`.**  The atomic steps of any OTHER evaluation on the shared
     heap – its `Get` (an object leaves the free list, or a fresh one is allocated), the `Return` of an object it
